@@ -1,6 +1,7 @@
 package sx
 
 import (
+	"bytes"
 	"fmt"
 	"go/types"
 	"os"
@@ -72,13 +73,14 @@ func Load(repoDir string, patterns []string, overlay map[string][]byte) (*Progra
 }
 
 type Job struct {
-	Name    string
-	Pkg     string // import path of the package holding the harness
-	Func    string // harness function name
-	Params  map[string]int64
-	Limits  Limits
-	EnvOpts EnvOpts
-	Known   map[string]bool
+	Name       string
+	Pkg        string // import path of the package holding the harness
+	Func       string // harness function name
+	Params     map[string]int64
+	Limits     Limits
+	EnvOpts    EnvOpts
+	Known      map[string]bool
+	CrossCheck bool // record solver transcripts and re-decide every query with z3-new and cvc5
 }
 
 // RunJob explores every path of the harness.
@@ -130,7 +132,40 @@ func (P *Program) RunJob(job *Job) *JobResult {
 				ex.stop()
 				return
 			}
-			defer sol.Close()
+			var transcript *bytes.Buffer
+			if job.CrossCheck {
+				transcript = &bytes.Buffer{}
+				transcript.WriteString("(set-option :produce-models true)\n(set-logic ALL)\n")
+				sol.LogTo = transcript
+			}
+			defer func() {
+				if transcript != nil && !sol.Dead() {
+					answers := append([]smt.Result(nil), sol.Answers...)
+					for _, other := range []string{"z3-new", "cvc5"} {
+						got, err := smt.ReplayTranscript(other, transcript.Bytes(), 10*time.Minute)
+						mu.Lock()
+						if err != nil {
+							res.CrossErrors = append(res.CrossErrors, other+": "+err.Error())
+						} else {
+							n := len(answers)
+							if len(got) != n {
+								res.CrossErrors = append(res.CrossErrors, fmt.Sprintf("%s answered %d of %d queries", other, len(got), n))
+								if len(got) < n {
+									n = len(got)
+								}
+							}
+							for i := 0; i < n; i++ {
+								res.CrossQueries++
+								if got[i] != answers[i] && got[i] != smt.Unknown && answers[i] != smt.Unknown {
+									res.CrossDisagreements++
+								}
+							}
+						}
+						mu.Unlock()
+					}
+				}
+				sol.Close()
+			}()
 			for {
 				item, ok := ex.pop()
 				if !ok {
@@ -261,6 +296,9 @@ func (P *Program) runPath(job *Job, fn *ssa.Function, item WorkItem, sol *smt.So
 		pr.Steps = p.steps
 		pr.Uncertain = p.uncertain
 		pr.Reach = sortedKeys(p.reach)
+		if len(it.sched.switches) > 0 {
+			p.notes["schedule"] = strings.Join(it.sched.switches, " ")
+		}
 		pr.Notes = p.notes
 		pr.KnownHits = p.known
 		pr.Choices = p.choices
